@@ -1,6 +1,6 @@
 """C19 - suite utilities preserve the test set (iterate_tests, filter_by_ids, sorted_tests, --list, --load-list).
 Input  : [tree, ids]      tree = ['case', n] | [kind, child, ...]   kind in plain/custom/csort/cfilter
-Trace  : [iter, filtered-shape, filtIter, sorted-shape|none, listed, loaded]   (see TTV/Drv/C19.lean)
+Trace  : [iter, filtered-shape, filtIter, sorted-shape|none, listed, loaded, sortFilt|none]   (see TTV/Drv/C19.lean)
 """
 import io, itertools, os, sys, tempfile, types, unittest
 from harness.core import Prop, some
@@ -26,15 +26,18 @@ def _classes():
     from testtools.testsuite import FixtureSuite
 
     class TrivialFixture:
+        log = []        # (event, id of the fixture object), every instance, in order
+
         def setUp(self):
-            pass
+            TrivialFixture.log.append(('setUp', id(self)))
 
         def cleanUp(self):
-            pass
+            TrivialFixture.log.append(('cleanUp', id(self)))
 
     class Fixture(FixtureSuite):        # (only to supply the fixture argument; nothing is overridden)
         def __init__(self, tests=()):
             FixtureSuite.__init__(self, TrivialFixture(), tests)
+    Fixture.fixture_log = TrivialFixture.log
     return {'plain': unittest.TestSuite, 'custom': Custom, 'csort': CustomSort, 'cfilter': CustomFilter, 'fixture': Fixture}
 
 
@@ -52,9 +55,11 @@ class C19(Prop):
             'vocabulary, i.e. a failing input): (1) caller-owned results - a foreign test is added to every suite the first '
             'filter_by_ids call created (objects not present in the tree before), then an identical fresh tree is filtered again '
             'and must give the same shape; the suite sorted_tests returns is handed to filter_by_ids (modelled: clause sort-then-filter) and every suite in it '
-            'must take another test (addTest); (2) route independence - --list and --load-list are repeated with the suite reaching '
+            'must take another test (addTest); every suite other than a plain TestSuite and every test in what sorted_tests returns must BE one of the objects of the tree that went in, each once '
+            '(the model compares class, tests and enclosing custom suite at every depth: clause sorted-whole, seed C19-f), and for trees with a FixtureSuite the sorted suite is run: '
+            'every fixture is set up and cleaned up exactly once, none by the sorting itself; (2) route independence - --list and --load-list are repeated with the suite reaching '
             'TestProgram unwrapped through a module load_tests hook (bare test cases and suites with their own filter_by_ids as '
-            'root included; the id file also with blank lines, CRLF line ends and blanks around the ids) and must list / run the same ids (done whenever the root is such an object and for half of the other cases, for run time). '
+            'root included; the id file also with blank lines, CRLF line ends and blanks around the ids) and must list / run the same ids (done whenever the root is such an object and for a third of the other cases, for run time). '
             'non-trivial = at least 2 leaves and (a non-plain suite or a duplicate id or a nested suite); distinct = distinct '
             'input S-expression')
     assumptions = ['unittest.TestSuite iteration/_tests semantics and unittest.TestProgram argument parsing are modelled, not verified',
@@ -65,19 +70,19 @@ class C19(Prop):
                    'an id() method; ids with the unittest.loader.ModuleImportFailure prefix (dropped by --list), with surrounding white space or '
                    'newlines (stripped / split by --load-list), an id list file starting with a BOM, non-ASCII ids on an ASCII stdout; loader.errors '
                    'left over from an earlier TestProgram in the same process; suites that have already been run',
-                   'object identity / aliasing is not part of the model (trees are values): that filter_by_ids hands out fresh suites and '
+                   'object identity / aliasing is not part of the model (trees are values; a suite is identified by its class and its tests, unique wherever sorted_tests answers): that the custom suites in a sorted result are the very objects that went in, that filter_by_ids hands out fresh suites and '
                    'that TestProgram uses the filtered suite however the suite was loaded are checked on the real objects only '
                    '(independence checks above) and, for the source text, by the translator tie C19_src_*',
-                   'translator tie: harness/pysuite2lean.py reads iterate_tests, filter_by_ids, _flatten_tests, sorted_tests and the '
-                   '--load-list block of TestProgram.__init__ as data; TTV.SuiteUtilSkel gives the data its meaning (trusted: that the '
+                   'translator tie: harness/pysuite2lean.py reads iterate_tests, filter_by_ids, _flatten_tests, sorted_tests, the '
+                   '--load-list block of TestProgram.__init__ and FixtureSuite.sort_tests as data; TTV.SuiteUtilSkel gives the data its meaning (trusted: that the '
                    'interpreter reads the recognised statement forms as Python does); unrecognised statements become .unknown']
 
     manifest = {
         'text': 'Theorems for all suite trees (any depth/fan-out/classes/ids) and id sets: iterate_tests = the case positions in document '
                 'order, once each; filter_by_ids keeps exactly the chosen ids with order, classes and grouping unchanged; sorted_tests is a '
-                'key-ordered permutation with plain suites flattened and custom suites whole, ValueError iff duplicate ids; --list/--load-list '
+                'key-ordered permutation with plain suites flattened and custom suites whole AT EVERY DEPTH (also inside a suite that sorts itself, such as FixtureSuite: class, tests and enclosing custom suite of every non-plain suite unchanged), ValueError iff duplicate ids; --list/--load-list '
                 'print/run exactly those. The hand-written model is tied to the code (a) by theorems C19_src_* proving that iterate / filterIds / '
-                'flatten / sortedTests / the --load-list step ARE the interpretation of the statement skeletons re-read from testsuite.py and run.py '
+                'flatten / sortedTests / the --load-list step / the children a self-sorting suite ends up with ARE the interpretation of the statement skeletons (incl. FixtureSuite.sort_tests) re-read from testsuite.py and run.py '
                 'on every run, (b) by a differential check (random + bounded-exhaustive trees) that also requires the results to be independent of '
                 'what the caller did to earlier results and of how the suite reached TestProgram.',
         'note': 'trusted: Lean kernel, the model TTV/Model/Suite.lean, the harness; unittest.TestSuite / TestProgram argument parsing modelled, '
@@ -88,6 +93,10 @@ class C19(Prop):
     def __init__(self):
         self.K = None
         self.LOG = []
+        # argparse asks for the terminal size for every option of every parser TestProgram builds (4 parsers per call, up to 4 calls a case):
+        # with both variables set shutil.get_terminal_size answers without the system call (10 % of the run time; nothing under test)
+        os.environ.setdefault('COLUMNS', '80')
+        os.environ.setdefault('LINES', '24')
 
     def extract_tables(self, repo):
         """tie: iterate_tests / filter_by_ids / _flatten_tests / sorted_tests / the --load-list block, re-read from the tree"""
@@ -148,10 +157,35 @@ class C19(Prop):
             if self.shape(filter_by_ids(self.build(tree), idset)) != fshape:
                 return ['raised', 'filter-result-depends-on-earlier-calls']
             try:
-                sorted_suite = sorted_tests(self.build(tree))
+                src2 = self.build(tree)
+                before = {}
+                walk(src2, lambda x: before.setdefault(id(x), x))
+                sorted_suite = sorted_tests(src2)
                 srt = some(self.shape(sorted_suite))
             except ValueError:
                 srt = None
+            if srt is not None:
+                # "kept whole" is about OBJECTS: every suite in the result other than plain TestSuites, and every test, is one of the
+                # objects of the tree that went in (the model compares class + tests: clause sorted-whole), each once
+                seen = []
+                walk(sorted_suite, lambda x: seen.append(x) if type(x) is not unittest.TestSuite else None)
+                if any(id(x) not in before for x in seen) or len({id(x) for x in seen}) != len(seen):
+                    return ['raised', 'sorted-result-holds-objects-that-were-not-in-the-tree']
+                if 'fixture' in str(tree):
+                    # ... and a kept FixtureSuite still does its job: running the result sets every fixture up (and cleans it up) exactly once
+                    # (seed C19-f: the inner suite dissolved, its fixture never set up)
+                    K = self.classes()
+                    fixtures = [x._fixture for x in before.values() if type(x) is K['fixture']]
+                    del K['fixture'].fixture_log[:]
+                    del self.LOG[:]
+                    sorted_tests(self.build(tree))      # (sorting alone must not touch a fixture)
+                    if K['fixture'].fixture_log:
+                        return ['raised', 'sorting-used-a-fixture']
+                    sorted_suite.run(unittest.TestResult())
+                    flog = [(e, i) for e, i in K['fixture'].fixture_log if i in {id(f) for f in fixtures}]
+                    if sorted(flog) != sorted([('setUp', id(f)) for f in fixtures] + [('cleanUp', id(f)) for f in fixtures]):
+                        return ['raised', 'fixture-of-a-kept-suite-not-set-up-exactly-once']
+                    sorted_suite = sorted_tests(self.build(tree))     # (a suite that has been run is used up)
             # what sorted_tests returns is handed to filter_by_ids (testtools.run discover --load-list composes them like that) ...
             sortfilt = None
             if srt is not None:
@@ -215,9 +249,9 @@ class C19(Prop):
 
     def unwrapped_route(self, inp):
         """is the second TestProgram route exercised for this input?  Always when the root is a bare test case or a suite with its
-        own filter_by_ids (the roots for which filter_by_ids returns a NEW object), for half of the other cases (run time)"""
+        own filter_by_ids (the roots for which filter_by_ids returns a NEW object), for a third of the other cases (run time)"""
         tree, ids = inp
-        return tree[0] in ('case', 'cfilter') or (len(ids) + sum(ids)) % 2 == 0
+        return tree[0] in ('case', 'cfilter') or (len(ids) + sum(ids)) % 3 == 0
 
     # ----- generators
     def gen_tree(self, rng, depth, ids):
